@@ -43,7 +43,7 @@ CHECKS = {
    "Every write batch position of every generated history was answered 'outcome unknown' in both variants, plus three second-order variants on the repair write; the client always got an error, later writes flowed, compaction stayed below the unresolved revision, and after hook-observed quiescence store and event stream converged to the storage-boundary ground truth (event payloads included). Concurrent runs with paired unknown outcomes answered out of revision order and a continuous compactor sampled in every 4th history.",
    "unknown outcomes are injected at the storage.KvStorage boundary; retry intervals shortened through the verif hook"),
  "C19": ("exploration", "Go race detector over the concurrent workloads of the other checks (worker built with -race), reports deduplicated by innermost kubebrain function pair", "5 C19",
-   "No data race report with a kubebrain frame was produced while the concurrent workloads (writers, readers, watchers joining/leaving/overflowing, overflow with subscriber churn, catch-up from a small wrapping watch cache, two complete server.NewServer nodes under concurrent gRPC clients, compaction, async retry, lock candidates, follower taking over, leader/follower pair with the real revision syncer) ran under the race detector on memkv and Badger; counts of executions and report blocks in evidence.",
+   "No data race report with a kubebrain frame was produced while the concurrent workloads (writers, readers, watchers joining/leaving/overflowing, overflow with subscriber churn, catch-up from a small wrapping watch cache, two complete nodes started through pkg/endpoint (real election, syncer, etcd proxy, Prometheus client) under concurrent gRPC clients, compaction, async retry, lock candidates, follower taking over, leader/follower pair with the real revision syncer) ran under the race detector on memkv and Badger; counts of executions and report blocks in evidence.",
    "a race detector sees only executed interleavings; reports wholly inside the TiKV mock or the harness are listed, not counted"),
  "C14": ("exploration", "complete step-interleaving enumeration on memkv against a register model (lock-step) + porcupine linearizability check of recorded concurrent lock histories", "5 C14",
    "All interleavings of 2 and of 3 candidates x 2 acquire rounds, of 2 candidates retrying a rejected write without a fresh Get, and of 2-3 candidates ending with client-go's release (an Update naming no holder, without a fresh Get), were executed on memkv through the real resourcelock.Interface and agreed with a compare-and-swap register model step by step; sampled interleavings on Badger, the TiKV mock and locks obtained from real backends; recorded concurrent histories are linearizable as a CAS register (porcupine).",
@@ -58,7 +58,7 @@ CHECKS = {
    "Held on generated histories mixing Event keys with look-alike keys on engines without native TTL (built-in compaction expiry, scanner driven directly and through a backend) and with native TTL (memkv, Badger), plus 1h-TTL controls: whatever lost records was an Event under <prefix>/events/, older than the TTL, removed wholly, creatable again, and no watch event was produced; also for events deleted and created again, with a client update placed inside the expiry and with a storage error on the removal of an index record.",
    "expiry is never demanded, only constrained; a key counts as younger than the TTL only if its newest write BEGAN less than TTL before the observation"),
  "C18": ("exploration", "call-recording backend + scripted peers under the real revision syncer (role matrix); two-node follower-read monitor with interleavings placed by the revision verif hooks", "5 C18",
-   "Held on the full role matrix (every request type of both APIs, watches from the next revision and from revision 0, x leader/follower x proxy on/off x leader reachable/unreachable/400/500) (incl. a recorded leader that is a real node which is not leading, answered by pkg/server's real /status handler) and on two-node runs with concurrent follower reads while the leader writes, including the placed schedules 'reader delayed between fetch and set' and 'five readers setting different revisions at the same instant'.",
+   "Held on the full role matrix (every request type of both APIs, watches from the next revision and from revision 0, x leader/follower x proxy on/off x leader reachable/unreachable/400/500) (incl. a recorded leader that is a real node which is not leading, answered by pkg/server's real /status handler) and on two-node runs with concurrent follower reads while the leader writes, including the placed schedules 'reader delayed between fetch and set' and 'five readers setting different revisions at the same instant', and on production pairs (two nodes started through pkg/endpoint with the real election, syncer and etcd proxy; requests to the follower's client port over gRPC).",
    "the etcd proxy and the election are stubs; the leader's status endpoint re-serves the logic of server.revisionHandler"),
  "C20": ("exploration", "generated hostile protobuf-round-tripped requests against a node wired with the real Prometheus client; panic/crash capture, metric label-set recorder (per node and process-wide), probe write + conservation monitor after every request; metric call-site tour over two real nodes", "5 C20",
    "Held on a burst of concurrent first requests and on generated hostile requests to both APIs (every 4th case over a real loopback gRPC connection with the production interceptors) with production metrics: every call returned, nothing panicked (in the handler or in background goroutines), no metric name was emitted with two label sets, and after every request a probe write became readable and watchable. Every 24th case tours the metric call sites a healthy leader never reaches (two real nodes from server.NewServer, follower role, faults, overflow) under a process-wide metric-signature table; names reached are listed in evidence.",
